@@ -658,7 +658,7 @@ class ObjTranslator:
     def __init__(self, fn, *, src_file, lean_name, kind, siblings, externals=(), ignored_calls=(), params=None,
                  has_self=True, stop_before=None, result_locals=None, doc="", method_externals=(), consts=None,
                  state=None, state_siblings=None, enter_ok=True, operators=None, constructors=None, owner_cls=None,
-                 module_tables=None):
+                 module_tables=None, module_calls=None):
         self.fn, self.src_file, self.lean_name, self.kind = fn, src_file, lean_name, kind
         self.siblings: dict[str, Sibling] = siblings
         self.externals, self.ignored_calls = set(externals), set(ignored_calls)
@@ -675,6 +675,7 @@ class ObjTranslator:
         self.constructors: dict[str, Sibling] = dict(constructors or {})     # class name -> its `<Cls>_new`
         self.owner_cls = owner_cls
         self.module_tables: dict = dict(module_tables or {})
+        self.module_calls: dict = dict(module_calls or {})     # "inspect.isclass" -> name the world knows it by
         self.has_self = has_self
         self.params = params
         self.stop_before = stop_before          # predicate on a statement: translation ends before it
@@ -902,6 +903,8 @@ class ObjTranslator:
                 return f"dictGet {self.atom(f.value)} {self.atom(a[0])}", False
             if f.attr == "items" and not a:
                 return f"dictItems {self.atom(f.value)}", False
+            if ast.unparse(f) in self.module_calls:
+                return f"W.ext {json.dumps(self.module_calls[ast.unparse(f)])} {self.args_list(a)}", False
             if f.attr == "format" and isinstance(f.value, ast.Constant) and isinstance(f.value.value, str):
                 return f"strFormat {self.atom(f.value)} {self.args_list(a)}", False
             if f.attr in self.method_externals and not self.is_self(f.value):
@@ -955,7 +958,11 @@ class ObjTranslator:
             if n == "callable" and len(a) == 1:
                 return f"(← callable {self.atom(a[0])})"
             if n == "isinstance" and len(a) == 2:
-                return f"(← isinstance {self.atom(a[0])} {self.cls_list(a[1])})"
+                try:
+                    return f"(← isinstance {self.atom(a[0])} {self.cls_list(a[1])})"
+                except Untranslatable:
+                    # the class is a computed value (`isinstance(_cls, metaclass)`): the world answers for that value
+                    return f"(← truthy (← W.ext \"isinstance\" [{self.atom(a[0])}, {self.atom(a[1])}]))"
             if n == "bool" and len(a) == 1:
                 return f"(← truthy {self.atom(a[0])})"
             if n == "issubclass" and len(a) == 2:
@@ -1272,15 +1279,28 @@ class ObjTranslator:
             # a call whose result is dropped (`item_context.transformer(item, t)`): evaluated for what it raises
             code, pure = self.call(c)
             return [f"{ind}let _ ← {code}"] if not pure else [f"{ind}pure ()"]
+        if isinstance(s, ast.Assert):
+            # `assert cond, msg`: AssertionError when the condition is false (the message is not modelled)
+            code = "(OVal.obj \"AssertionError\" [])"
+            tail = f"return ({self.state_l}, Outcome.raise {code})" if self.kind == "mut" else f"throw (Exc.raised {code})"
+            return [f"{ind}if (!{self.cond(s.test)}) then", f"{ind}  {tail}"]
+        if isinstance(s, ast.FunctionDef):
+            # a nested function: a closure object that carries the variables of this scope it mentions
+            free = sorted({n.id for n in ast.walk(s) if isinstance(n, ast.Name) and n.id in self.declared
+                           and n.id not in {a.arg for a in s.args.args}} - {self.recv, s.name})
+            items = ", ".join(f"({json.dumps(v)}, {lname(v)})" for v in free)
+            return [self.assign(s.name, (f"(OVal.obj {json.dumps('closure:' + s.name)} [{items}])", True), ind)]
         if isinstance(s, ast.ImportFrom) and all(a.asname is None and a.name in OBJ_CLASS_NAMES for a in s.names):
             return []      # a class name used in isinstance / issubclass only
         self.fail(s)
 
     def translate(self) -> str:
         a = self.fn.args
-        if a.vararg or a.kwarg or a.posonlyargs:
+        if a.kwarg or a.posonlyargs:
             self.fail(self.fn, "signature")
         names = [x.arg for x in a.args if not (self.has_self and x.arg == self.recv)]
+        if a.vararg:
+            names.append(a.vararg.arg)       # `*classes`: the tuple of the positional arguments
         kwonly = [x.arg for x in a.kwonlyargs]
         extra = list(self.params or [])
         ret_t = "M V (OVal V × Outcome V)" if self.kind == "mut" else "M V (OVal V)"
@@ -1339,6 +1359,8 @@ def assigned_names_obj(body) -> set[str]:
             elif isinstance(n, ast.Expr) and isinstance(n.value, ast.Call) and isinstance(n.value.func, ast.Attribute) \
                     and n.value.func.attr in ("append", "extend", "clear", "sort", "update") and isinstance(n.value.func.value, ast.Name):
                 out.add(n.value.func.value.id)
+            elif isinstance(n, ast.FunctionDef):
+                out.add(n.name)
     return out
 
 
@@ -1421,7 +1443,7 @@ def gen_group(repo: Path, notes: list, *, src_file: str, cls_name: str | None, f
                                state=spec.get("state"), state_siblings=spec.get("state_siblings"),
                                enter_ok=spec.get("enter_ok", True), operators=spec.get("operators"),
                                constructors=spec.get("constructors"), owner_cls=spec.get("cls", cls_name),
-                               module_tables=spec.get("module_tables"))
+                               module_tables=spec.get("module_tables"), module_calls=spec.get("module_calls"))
             out.append(tr.translate() + "\n")
         except Untranslatable as e:
             notes.append(f"untranslatable {e} ({cls_name or ns}.{py})")
@@ -1521,8 +1543,12 @@ def _group_body(text: str) -> list[str]:
 def _find_nested(outer: str, inner: str):
     def find(_tree, cls):
         o = find_method(cls, outer)
-        return next((n for n in (o.body if o else []) if isinstance(n, ast.FunctionDef) and n.name == inner), None)
+        return next((n for n in (ast.walk(o) if o else []) if isinstance(n, ast.FunctionDef) and n.name == inner and n is not o), None)
     return find
+
+
+def _is_def(name: str):
+    return lambda st: isinstance(st, ast.FunctionDef) and st.name == name
 
 
 def gen_registry(repo: Path, notes: list, gate_ok: bool) -> str:
@@ -1536,6 +1562,12 @@ def gen_registry(repo: Path, notes: list, gate_ok: bool) -> str:
              "params": ["detector", "priority"], "has_self": True, "arity": 4,
              "doc": " (inner function of `register`; closure variables `detector`, `priority` are parameters)"},
             {"py": "resolve", "kind": "mut", "arity": 2, "method_externals": {"resolve"}},
+            {"py": "detector", "lean": "register_detector", "find": _find_nested("register", "detector"), "has_self": False,
+             "params": ["classes", "allow_subclasses", "metaclass", "attr"], "arity": 5,
+             "doc": " (closure built by `register`; its closure variables are parameters)"},
+            {"py": "register", "lean": "register_outer", "stop_before": _is_def("decorator"), "arity": 3, "kw": True,
+             "result_locals": ["detector", "priority"], "module_calls": {"inspect.isclass": "isclass"},
+             "doc": " up to (not including) `def decorator`: the argument checks; result: what the decorator captures"},
         ], gate_ok=gate_ok)
 
 
